@@ -49,7 +49,7 @@ def run(tier, seed):
 def replay(path, seed):
     import json
     rp = json.load(open(path))["replay"]
-    if "graph" in rp:
+    if "in" in rp and "edges" in rp["in"]:
         import c09deleg
         return c09deleg.replay(path, seed)
     return clientlib.replay_one(PID, path, seed, FIELDS)
